@@ -33,19 +33,19 @@ func H_C17() {
 		if len(b.Errs) > 0 {
 			msg = b.Errs[0].Msg
 		}
-		Fail("C17:formatted-source-parses", firstNodeKinds(ref.Root)+": "+msg)
+		Fail("C17:formatted-source-parses", c17Family(ref.Root)+": "+msg)
 		return
 	}
 	eq, diff := TreeEq(b.Root, ref.Root, 0)
 	if diff != "" {
-		Fail("C17:same-structure-and-values", diff)
+		Fail("C17:same-structure-and-values", shortDiff(diff))
 	} else {
 		Assert("C17:same-structure-and-values|"+firstNodeKinds(ref.Root), eq)
 	}
 	// idempotence
 	out2 := formatAndPrint(b.Root)
 	if len(out2) != len(out1) {
-		Fail("C17:idempotent", firstNodeKinds(ref.Root))
+		Fail("C17:idempotent", stmtKindAtFirstDiff(b.Root, out1, out2))
 	} else {
 		Assert("C17:idempotent|"+firstNodeKinds(ref.Root), BytesEq(out1, out2))
 	}
@@ -63,6 +63,81 @@ func H_C17() {
 		}
 	}
 	Cover("formatted")
+}
+
+// shortDiff keeps the last path segment of a tree difference: "…/Kind.Slot:what".
+func shortDiff(d string) string {
+	colon := len(d)
+	for i := 0; i < len(d); i++ {
+		if d[i] == ':' {
+			colon = i
+			break
+		}
+	}
+	start := 0
+	for i := 0; i < colon; i++ {
+		if d[i] == '/' {
+			start = i + 1
+		}
+	}
+	return d[start:]
+}
+
+// c17Family: coarse class of the program for "does not parse" signatures: the three
+// constructs the formatter is known to mishandle, else the first statement's kinds.
+func c17Family(root ast.Vertex) string {
+	html, heredoc, dollarCurly := false, false, false
+	Walk(root, nil, func(n, _ ast.Vertex) {
+		switch x := n.(type) {
+		case *ast.StmtInlineHtml:
+			html = true
+		case *ast.StmtNop:
+			if x.SemiColonTkn != nil && len(x.SemiColonTkn.Value) >= 2 && x.SemiColonTkn.Value[0] == '?' {
+				html = true
+			}
+		case *ast.StmtEcho:
+			if x.EchoTkn != nil && len(x.EchoTkn.Value) == 3 && x.EchoTkn.Value[0] == '<' {
+				html = true
+			}
+		case *ast.ScalarHeredoc:
+			heredoc = true
+		case *ast.ScalarEncapsedStringVar:
+			dollarCurly = true
+		}
+	})
+	switch {
+	case html:
+		return "program with inline HTML or a close tag"
+	case dollarCurly:
+		return "string with a ${ } part"
+	case heredoc:
+		return "program with a heredoc"
+	}
+	return firstNodeKinds(root)
+}
+
+// stmtKindAtFirstDiff: kind of the innermost statement of root (a tree with positions
+// for text a) that covers the first byte at which a and b differ.
+func stmtKindAtFirstDiff(root ast.Vertex, a, b []byte) string {
+	off := 0
+	for off < len(a) && off < len(b) && a[off] == b[off] {
+		off++
+	}
+	best, bestLen := "?", 1<<30
+	Walk(root, nil, func(n, _ ast.Vertex) {
+		p := n.GetPosition()
+		if p == nil || p.StartPos < 0 || p.EndPos < 0 {
+			return
+		}
+		k := kindName(KindOf(n))
+		if len(k) < 4 || k[:4] != "Stmt" {
+			return
+		}
+		if p.StartPos <= off && off <= p.EndPos && p.EndPos-p.StartPos < bestLen {
+			best, bestLen = k, p.EndPos-p.StartPos
+		}
+	})
+	return best
 }
 
 // firstNodeKinds: the kinds of the first statement and its first child, as a coarse
